@@ -306,6 +306,56 @@ theorem reconcilePhase_writes_justified (cfg : Cfg) (ow : Owner) (prev : List Pr
   · exact ⟨[], by simp, by simp⟩
   · exact go_events cfg ow prev ps w []
 
+/-! ### The abstraction of the decision table
+
+The correspondence harness enumerates the adoption decision by ABSTRACT rows (controller class ×
+revision class × collisionProtection × forced) and realises every row by concrete objects that
+differ in everything else (labels — in particular the package-instance label on owner and object —
+annotations, kind / name / uid of an undeclared controller, further owners, position of the
+controller reference, the ownership list the strategy does not read …).  The two theorems below
+say that, for the MODEL, this is exact: the verdict is a function of the row.  The harness then
+checks the Go code against that on every realisation (`IrrelevanceTable`, `TableX` in
+harness/verifphase/gen.go). -/
+
+/-- The verdict depends on the object only through the five predicates of the table, and on the
+owner only through its reference and revision. -/
+theorem check_depends_on_row_only (st : Strategy) (ow ow' : Owner) (force : Bool) (o o' : Obj)
+    (prev : List Prev) (cp : CP)
+    (how : ow.ref true = ow'.ref true) (hrevo : ow.rev = ow'.rev)
+    (h1 : isController st (ow.ref true) o = isController st (ow.ref true) o')
+    (h2 : o.rev = o'.rev)
+    (h3 : (o.pkgLabel == "package-operator") = (o'.pkgLabel == "package-operator"))
+    (h4 : hasController st o = hasController st o')
+    (h5 : controlledByPrevious st o prev = controlledByPrevious st o' prev) :
+    check st ow force o prev cp = check st ow' force o' prev cp := by
+  unfold check
+  rw [← how, ← hrevo, h1, h2, h3, h4, h5]
+
+/-- The three ownership predicates look at the controller references of the list the strategy
+reads and at nothing else: objects with the same controlling references (whatever their other
+owners, their order relative to them, the other list, labels, annotations, payload, status) fall
+into the same row. -/
+theorem ownership_predicates_of_controllers (st : Strategy) (o o' : Obj)
+    (h : (refs st o).filter (·.ctrl) = (refs st o').filter (·.ctrl)) :
+    (∀ r, isController st r o = isController st r o') ∧
+    hasController st o = hasController st o' ∧
+    (∀ prev, controlledByPrevious st o prev = controlledByPrevious st o' prev) := by
+  have key : ∀ (f : ORef → Bool) (l : List ORef), l.any (fun x => f x && x.ctrl) = (l.filter (·.ctrl)).any f := by
+    intro f l
+    induction l with
+    | nil => rfl
+    | cons x xs ih =>
+      cases hx : x.ctrl <;> simp [List.filter, hx, ih]
+  have hic : ∀ r, isController st r o = isController st r o' := by
+    intro r
+    simp only [isController, key (sameObj r), h]
+  refine ⟨hic, ?_, ?_⟩
+  · have := key (fun _ => true)
+    simp only [Bool.true_and] at this
+    simp only [hasController, this, h]
+  · intro prev
+    simp only [controlledByPrevious, hic]
+
 /-- Non-vacuity: a foreign-controlled object under `Prevent` is refused, the same object under
 `None` is adopted; an object controlled by a declared previous revision is adopted under `Prevent`. -/
 example :
